@@ -6,7 +6,7 @@ import RJson.Props.C13Literals
 
 With C05 (each integer reader returns exactly the value and offset of the reference integer token when it fits the
 type's range, and fails otherwise) and `C13.readNull_spec`, `DecodeInt64`, `DecodeInt` (the same reader on a 64-bit platform) and `DecodeInt32` are
-determined by the text alone (the unsigned ones have the same shape with `C05.readUint64_spec`; not instantiated here): an integer token in range — target = its value, offset =
+determined by the text alone and so are `DecodeUint64`, `DecodeUint`, `DecodeUint32` (`decodeUint64_spec`, `decodeUint32_spec`): an integer token in range — target = its value, offset =
 its end; else JSON whitespace and `null` — target untouched, offset after `null`; else an error, target untouched.
 -/
 namespace RJson.C12
@@ -119,5 +119,80 @@ theorem decodeInt32_spec (data : Bytes) (hsm : Small data) (t : Int) :
     | some n => (decode readInt32 data t).err = none ∧ (decode readInt32 data t).p.toNat = n
     | none => (decode readInt32 data t).err.isSome = true :=
   decodeInt_of_spec readInt32 _ _ data hsm t (readInt32_spec data) (readInt32_np data)
+
+/-! ## the unsigned decoders -/
+
+/-- what an unsigned integer `Decode*` is specified to do -/
+def specDecodeUint (hi : Int) (data : List UInt8) (t : UInt64) : Int × Option Nat :=
+  match Spec.readInt 0 hi false data with
+  | some (v, n) => (v, some n)
+  | none =>
+    match scanLit [110, 117, 108, 108] (skipWs data) with
+    | some rest => ((t.toNat : Int), some (data.length - rest.length))
+    | none => ((t.toNat : Int), none)
+
+theorem decodeUint_of_spec (rd : Bytes → R UInt64) (hi : Int) (data : Bytes) (hsm : Small data) (t : UInt64)
+    (hspec : outcomeU (rd data) = Spec.readInt 0 hi false data.toList) (hnp : (rd data).panicked = false) :
+    (decode rd data t).panicked = false ∧
+    (((decode rd data t).val.toNat : Int)) = (specDecodeUint hi data.toList t).1 ∧
+    match (specDecodeUint hi data.toList t).2 with
+    | some n => (decode rd data t).err = none ∧ (decode rd data t).p.toNat = n
+    | none => (decode rd data t).err.isSome = true := by
+  simp only [specDecodeUint]
+  simp only [outcomeU, hnp, Bool.not_false, Bool.and_true] at hspec
+  cases he : (rd data).err with
+  | none =>
+    simp only [he, Option.isNone_none, if_true] at hspec
+    rw [← hspec]
+    simp only []
+    rw [decode_success rd data t he hnp]
+    exact ⟨hnp, rfl, he, rfl⟩
+  | some e =>
+    simp only [he, Option.isNone_some, Bool.false_eq_true, if_false] at hspec
+    rw [← hspec]
+    simp only []
+    have hn := C13.readNull_spec data hsm
+    cases hl : scanLit [110, 117, 108, 108] (skipWs data.toList) with
+    | some rest =>
+      rw [hl] at hn
+      simp only [] at hn ⊢
+      obtain ⟨n1, n2, n3⟩ := hn
+      obtain ⟨d1, d2, d3⟩ := decode_null rd data t e he hnp n1 n3
+      refine ⟨?_, by rw [d1], d2, ?_⟩
+      · simp [decode, he, hnp, n1, n3]
+      · rw [d3, n2]; simp
+    | none =>
+      rw [hl] at hn
+      simp only [] at hn ⊢
+      obtain ⟨n1, n3⟩ := hn
+      obtain ⟨d1, d2⟩ := decode_error rd data t e .notNull he hnp n1 n3
+      refine ⟨?_, by rw [d1], by rw [d2]; rfl⟩
+      simp [decode, he, hnp, n1, n3]
+
+theorem readUint32_np (data : Bytes) : (readUint32 data).panicked = false := by
+  have h : (readUint64 data).panicked = false := readUint64From_np data 0
+  unfold readUint32
+  simp only []
+  split
+  · rfl
+  · exact h
+
+/-- **`DecodeUint64` (and `DecodeUint` on a 64-bit platform) does what the text says** -/
+theorem decodeUint64_spec (data : Bytes) (hsm : Small data) (t : UInt64) :
+    (decode readUint64 data t).panicked = false ∧
+    (((decode readUint64 data t).val.toNat : Int)) = (specDecodeUint 18446744073709551615 data.toList t).1 ∧
+    match (specDecodeUint 18446744073709551615 data.toList t).2 with
+    | some n => (decode readUint64 data t).err = none ∧ (decode readUint64 data t).p.toNat = n
+    | none => (decode readUint64 data t).err.isSome = true :=
+  decodeUint_of_spec readUint64 _ data hsm t (readUint64_spec data) (readUint64From_np data 0)
+
+/-- **`DecodeUint32` does what the text says** -/
+theorem decodeUint32_spec (data : Bytes) (hsm : Small data) (t : UInt64) :
+    (decode readUint32 data t).panicked = false ∧
+    (((decode readUint32 data t).val.toNat : Int)) = (specDecodeUint 4294967295 data.toList t).1 ∧
+    match (specDecodeUint 4294967295 data.toList t).2 with
+    | some n => (decode readUint32 data t).err = none ∧ (decode readUint32 data t).p.toNat = n
+    | none => (decode readUint32 data t).err.isSome = true :=
+  decodeUint_of_spec readUint32 _ data hsm t (readUint32_spec data) (readUint32_np data)
 
 end RJson.C12
